@@ -210,18 +210,18 @@ def concrete(case):
                 back = C.load_metadata_from_file(p)
                 if not _same(back, env):
                     probs.append(f'loading gives {back!r:.120} for {env!r:.120}')
-                elif C.canonserialize(back) != raw:
+                elif CC.ref_canon(back) != raw:
                     probs.append('canonical bytes of the loaded envelope differ from the file')
         return {'outcome': oc, 'problems': probs}
     if case['scenario'] == 'overwrite':
         v1, v2 = from_wire(case['v1']), from_wire(case['v2'])
-        prior = {'missing': None, 'v1': C.canonserialize(v1), 'notjson': b'{not json'}[case['prior']]
+        prior = {'missing': None, 'v1': CC.ref_canon(v1), 'notjson': b'{not json'}[case['prior']]
         with CC.temp_files({'md.json': prior}) as paths:
             p = paths['md.json']
             oc = CC.outcome_of(C.write_metadata_to_file, v2, p)
             if oc['kind'] == 'ret':
                 raw = open(p, 'rb').read()
-                if raw != C.canonserialize(v2):
+                if raw != CC.ref_canon(v2):
                     probs.append('the file does not hold the canonical serialisation of the value just written')
                 back = C.load_metadata_from_file(p)
                 if not _same(back, v2):
@@ -253,7 +253,7 @@ def concrete(case):
         again = C.load_metadata_from_file(p)
         if pubs[0] != pubs[1] and again['signatures'].get(pubs[0]) != first:
             probs.append('adding a signature to a stored file altered or dropped the signature already present')
-        if C.canonserialize(again['signed']) != C.canonserialize(payload):
+        if CC.ref_canon(again['signed']) != CC.ref_canon(payload):
             probs.append('the payload changed in the cycle')
         c = CC.outcome_of(A.verify_signable, again, auth, case['thr'], **kw)
         d = CC.outcome_of(A.verify_signable, loaded, auth, case['thr'], **kw)
